@@ -13,7 +13,12 @@ NOT_APPLICABLE = {}
 def claim(pid, text, note, ref):
     CLAIMED[pid] = dict(text=text, note=note, ref=ref)
 
+ENABLED = None
 exec(open(os.path.join(HERE, 'tools', 'claims.py')).read())
+if ENABLED is not None:
+    for k in list(CLAIMED):
+        if k not in ENABLED:
+            del CLAIMED[k]
 
 ALL = [json.loads(l)['id'] for l in open(os.path.join(HERE, 'properties.jsonl'))]
 checks = []
